@@ -667,8 +667,11 @@ func New() *FunctionGenerator {
 			}
 			return false, false
 		}).
-		AddOpImpl("|", true, Or(f)).
-		AddOpImpl("&", true, And(f))
+		// Although the operations themselves are commutative, | and & are not declared as such:
+		// the generated code evaluates them lazily (see GenerateCustom), so reordering the
+		// operands changes which of them are evaluated at all.
+		AddOpImpl("|", false, Or(f)).
+		AddOpImpl("&", false, And(f))
 
 	f.FunctionGenerator = fg
 	equal := Equal(f)
